@@ -1007,6 +1007,37 @@ func generate(rng *hx.Rand, thorough bool, jobs chan<- func() string) {
 		jobs <- func() string { return propLine(c) }
 	}
 
+	// ---- Response.DecodeProp with several values (each decoded in turn, the
+	// first failure ends the call)
+	for i := 0; i < 3000*scale; i++ {
+		c := &propCase{how: "dp", code: -1}
+		var tags []tagSpec
+		for k := 1 + rng.Intn(3); k > 0; k-- {
+			switch q := rng.Intn(20); {
+			case q < 17:
+				tags = append(tags, tagSpec{tag: rng.Pick(goodTags)})
+			case q < 19:
+				tags = append(tags, tagSpec{tag: rng.Pick(badTags)})
+			default:
+				tags = append(tags, tagSpec{none: rng.Pick([]string{"notstruct", "nofield", "wrongtype"})})
+			}
+		}
+		if rng.Chance(1, 3) {
+			c.code = []int{200, 207, 299, 300, 404, 500}[rng.Intn(6)]
+		}
+		for j := 1 + rng.Intn(3); j > 0; j-- {
+			ps := pstat{code: 200}
+			if rng.Chance(1, 4) {
+				ps.code = []int{201, 404, 0, 207, 403}[rng.Intn(5)]
+			}
+			for k := 1 + rng.Intn(5); k > 0; k-- {
+				ps.raws = append(ps.raws, genPropRaw())
+			}
+			c.pss = append(c.pss, ps)
+		}
+		jobs <- func() string { return propmLine(tags, c) }
+	}
+
 	// ---- valueXMLName: every tag over a small alphabet up to a length, the
 	// tags of the library's own structures, values that are no such struct
 	alphabet := []string{"a", "b", " ", ",", ":"}
